@@ -76,9 +76,9 @@ __kernel void match_gate_kernel(
         float2 term2 = cmul(exp_i_phi1, scmul(sin_theta_half, amp10));
         float2 new_amp01 = csub(term1, term2);
 
-        // new_amp10 = sin_theta_half * amp01 + exp_i_phi2 * cos_theta_half * amp10;
+        // new_amp10 = sin_theta_half * amp01 + exp_i_phi1 * cos_theta_half * amp10;
         float2 term3 = scmul(sin_theta_half, amp01);
-        float2 term4 = cmul(exp_i_phi2, scmul(cos_theta_half, amp10));
+        float2 term4 = cmul(exp_i_phi1, scmul(cos_theta_half, amp10));
         float2 new_amp10 = cadd(term3, term4);
         
         // new_amp11 = amp11 * exp_i_phi2
